@@ -258,6 +258,8 @@ struct Cl {
     prefix: Vec<u8>,
     /// after the server closed: check that it really stopped reading (stalling behaviours only: real-time cost)
     probe_close: bool,
+    /// real (not virtual) instant at which a status exchange completed
+    done_real: Option<std::time::Instant>,
     secret: Option<Vec<u8>>,
 }
 fn now_ms(t0: Instant) -> u64 { (Instant::now() - t0).as_millis() as u64 }
@@ -418,6 +420,9 @@ async fn login_steps(c: &mut Cl, host: &str, next: i32, upto: u32, gap: u64, aut
     c.send_frame(0, &client_info_body()).await
 }
 
+/// a probe whose status exchange takes longer than this in REAL time counts as not served (something blocked the runtime)
+const PROBE_REAL_BOUND_MS: u64 = 1500;
+
 async fn status_exchange(c: &mut Cl, first: Vec<u8>) {
     if !c.send_raw(&first).await { c.drain().await; return; }
     if !c.send_frame(0, &[]).await { c.drain().await; return; }
@@ -427,6 +432,7 @@ async fn status_exchange(c: &mut Cl, first: Vec<u8>) {
     if c.wait_frame(0x01).await.is_none() { return; }
     let t = now_ms(c.t0);
     c.obs.lock().unwrap().done = Some(t);
+    c.done_real = Some(std::time::Instant::now());
     c.drain().await;
 }
 
@@ -439,7 +445,7 @@ async fn client(t0: Instant, port: u16, cs: ConnScript, cfg: Cfg, obs: Arc<Mutex
     let _ = s.set_nodelay(true);
     obs.lock().unwrap().connected = true;
     let mut c = Cl { s, enc: None, dec: None, buf: vec![], obs, t0, in_config: false, ka_echo: false, prefix: vec![],
-                     probe_close: matches!(cs.beh, Beh::Silent | Beh::MidFrame | Beh::StopAt(_)) && cs.id % 3 == 0,
+                     probe_close: matches!(cs.beh, Beh::Silent | Beh::MidFrame | Beh::StopAt(_)) && cs.id % 3 == 0, done_real: None,
                      secret: cfg.secret.clone().map(String::into_bytes) };
     match &cs.hdr {
         Hdr::None => {}
@@ -488,7 +494,17 @@ async fn client(t0: Instant, port: u16, cs: ConnScript, cfg: Cfg, obs: Arc<Mutex
             c.drain().await;
         }
         Beh::StopAt(k) => { let _ = login_steps(&mut c, &host, 2, k, 0, None, &cs).await; c.drain().await; }
-        Beh::Status | Beh::Probe | Beh::Late => { let f = frame_bytes(0, &handshake_body(&host, 1)); status_exchange(&mut c, f).await; }
+        Beh::Probe => {
+            // the probe's exchange is also timed in REAL time: under the paused clock it takes a few milliseconds unless
+            // something blocks the runtime thread itself (a blocking call in another connection's path)
+            let real = std::time::Instant::now();
+            let f = frame_bytes(0, &handshake_body(&host, 1));
+            status_exchange(&mut c, f).await;
+            if c.done_real.map(|d| d.duration_since(real)).unwrap_or_default() > std::time::Duration::from_millis(PROBE_REAL_BOUND_MS) {
+                let mut o = c.obs.lock().unwrap(); o.done = None; o.status = false;
+            }
+        }
+        Beh::Status | Beh::Late => { let f = frame_bytes(0, &handshake_body(&host, 1)); status_exchange(&mut c, f).await; }
         Beh::Big(n) => { let f = big_handshake(&host, n); status_exchange(&mut c, f).await; }
         Beh::Login { pace: gap } => {
             c.ka_echo = true;
@@ -879,6 +895,25 @@ fn main() {
             let run = run_case(0, &cfg, &conns, None, end);
             emit("STALL", 0, &cfg, &conns, None, end, &run);
             st.hit(&format!("STALL.point={}", point)); st.hit(&format!("STALL.k={}", k)); st.hit(&format!("STALL.proxy={}", proxy_on)); st.hit(&format!("STALL.lim={}", lim.is_some())); ncase += 1;
+        }
+    }
+
+    // rejected connections right before the probe: turning clients away must cost the others nothing
+    if want("STALL") {
+        for i in 0..2u64 {
+            let cfg = Cfg { max: 10_000, expiry: 21_600, secret: None, timeout_s: 6, lim: Some((1, 60)), proxy: None };
+            let mut conns = vec![];
+            let t = 50 + 10 * i;
+            // one admitted attempt of an address; later, at ONE instant, the probe of another address followed by four
+            // attempts of the first address, all refused while the probe's exchange is in flight
+            let b = Beh::Status;
+            conns.push(plain(1, 3, t, b.clone(), nat_of(&b, 0)));
+            conns.push(plain(99, 5, t + 70, Beh::Probe, Some(10)));
+            for j in 0..4u64 { conns.push(plain(j as i64 + 2, 3, t + 70, b.clone(), nat_of(&b, 0))); }
+            let end = t + 70 + 6000 + 600;
+            let run = run_case(0, &cfg, &conns, None, end);
+            emit("STALL", 0, &cfg, &conns, None, end, &run);
+            st.hit("STALL.rejected_before_probe"); ncase += 1;
         }
     }
 
